@@ -134,14 +134,65 @@ Ltac cs := autorewrite with cs in *.
 Lemma rel_set_rs r st s : cs_round s <= r -> Rel s (set_rs r st s).
 Proof. intro H. unfold Rel, has_block. cs. repeat split; auto. Qed.
 
-Lemma do_prevote_out s o : snd (do_prevote E s) = o ->
-  o = [] \/ exists x, o = [OSignVote PREVOTE (cs_height s) (cs_round s) x] /\
-                      (forall lb, cs_lblock s = Some lb -> bhash x = Some (b_hash lb)).
+Lemma polka_from_state D s r x :
+  HInv D s -> o_maj23 (prevotes (cs_votes s) r) = Some x -> Polka D (cs_height s) r x.
 Proof.
-  intro Eo. subst o. unfold do_prevote, sign_add_vote.
-  destruct (is_validator E); [|left; destruct (cs_lblock s); [reflexivity|]; destruct (cs_pblock s) as [pb|]; [destruct (b_valid pb)|]; reflexivity].
-  right. destruct (cs_lblock s) as [lb|] eqn:El.
-  - eexists. split; [reflexivity|]. intros lb' Hl. injection Hl as <-. unfold block_id_of. destruct (cs_lparts s); reflexivity.
+  intros [H1 H2] Hm. unfold prevotes in Hm. destruct (hv_get (cs_votes s) r PREVOTE) as [vs|] eqn:G; [|discriminate].
+  cbn in Hm. pose proof (hv_get_good D (e_vals E) (cs_votes s) r PREVOTE vs H1 G) as Gs. cbn in Gs.
+  rewrite <- H2. eapply good_set_quorum; eassumption.
+Qed.
+
+(* the unlock rule of defaultDoPrevote fires only on a held polka for something else from a
+   round after the lock round and not after the given round *)
+Lemma later_polka_other_sound hv lb lr : forall fuel r,
+  later_polka_other hv lb lr r fuel = true ->
+  exists r' polka, lr < r' <= r /\ o_maj23 (prevotes hv r') = Some polka /\ bhash polka <> Some (b_hash lb).
+Proof.
+  induction fuel as [|f IH]; intros r H; cbn [later_polka_other] in H; [discriminate|].
+  destruct (r <=? lr) eqn:Er; [discriminate|]. apply Z.leb_gt in Er.
+  assert (Rec : later_polka_other hv lb lr (r - 1) f = true ->
+                exists r' polka, lr < r' <= r /\ o_maj23 (prevotes hv r') = Some polka /\ bhash polka <> Some (b_hash lb)).
+  { intro H'. destruct (IH _ H') as (r' & pk & A & B & C). exists r', pk. split; [lia | auto]. }
+  destruct (o_maj23 (prevotes hv r)) as [polka|] eqn:Em; [|apply Rec; exact H].
+  destruct (negb ((match polka with Some _ => true | None => false end) &&
+                  hashes_to (Some lb) (match polka with Some (h, _) => h | None => 0%N end))) eqn:C; [|apply Rec; exact H].
+  exists r, polka. split; [lia|]. split; [exact Em|].
+  destruct polka as [[h ph]|]; cbn in *; [|discriminate].
+  apply negb_true_iff, N.eqb_neq in C. congruence.
+Qed.
+
+Lemma core_unlock_known D P SPC round s :
+  Core D P SPC s -> round <= cs_round s -> Core D P SPC (unlock_known round s).
+Proof.
+  intros (HI & LI & BI) Hr. unfold unlock_known.
+  destruct (cs_lblock s) as [lb|] eqn:El; [|split; [exact HI | split; assumption]].
+  destruct (later_polka_other _ _ _ _ _) eqn:Lp; [|split; [exact HI | split; assumption]].
+  destruct (later_polka_other_sound _ _ _ _ _ Lp) as (r' & polka & Hr' & Hm & Hne).
+  pose proof (polka_from_state D s r' polka HI Hm) as Hp.
+  split; [|split].
+  - destruct HI as [H1 H2]. split; autorewrite with cs; assumption.
+  - intros h r b Hin Hh. autorewrite with cs in *. right.
+    destruct (LI h r b Hin Hh) as [(lb0 & L1 & L2 & L3)|Rl]; [|exact Rl].
+    rewrite El in L1. injection L1 as <-.
+    exists r', polka. split; [lia|]. split; [rewrite <- L2; exact Hne | rewrite Hh; exact Hp].
+  - intros b Hb. apply BI. unfold has_block in *. autorewrite with cs in Hb.
+    destruct Hb as [Hb|[Hb|Hb]]; try discriminate; auto.
+Qed.
+
+Lemma rel_unlock_known_frame round s :
+  cs_height (unlock_known round s) = cs_height s /\ cs_round (unlock_known round s) = cs_round s /\
+  cs_votes (unlock_known round s) = cs_votes s.
+Proof. autorewrite with cs. auto. Qed.
+
+Lemma do_prevote_out round s o : snd (do_prevote E round s) = o ->
+  o = [] \/ exists x, o = [OSignVote PREVOTE (cs_height s) (cs_round s) x] /\
+                      (forall lb, cs_lblock (unlock_known round s) = Some lb -> bhash x = Some (b_hash lb)).
+Proof.
+  intro Eo. subst o. unfold do_prevote, do_prevote_unfixed, sign_add_vote. autorewrite with cs.
+  set (u := unlock_known round s).
+  destruct (is_validator E); [|left; destruct (cs_lblock u); [reflexivity|]; destruct (cs_pblock s) as [pb|]; [destruct (b_valid pb)|]; reflexivity].
+  right. destruct (cs_lblock u) as [lb|] eqn:El.
+  - eexists. split; [reflexivity|]. intros lb' Hl. injection Hl as <-. unfold block_id_of. destruct (cs_lparts u); reflexivity.
   - destruct (cs_pblock s) as [pb|]; [destruct (b_valid pb)|]; (eexists; split; [reflexivity | intros lb' Hl; discriminate]).
 Qed.
 
@@ -155,17 +206,22 @@ Proof.
   - injection Eq as <- <-. cbn. rewrite app_nil_r. auto.
   - unfold step_le in G. bool_to_prop. specialize (Hr ltac:(lia)).
     assert (round = cs_round s) by lia. subst round.
-    unfold seq in Eq. pose proof (do_prevote_keys E s) as [Es _].
-    destruct (do_prevote E s) as [s1 o1] eqn:Ed. cbn [fst] in Es. subst s1. rewrite Hh in Eq.
+    pose proof (core_unlock_known D P SPC (cs_round s) s C ltac:(lia)) as Cu.
+    unfold seq in Eq. pose proof (do_prevote_keys E (cs_round s) s) as [Es _].
+    destruct (do_prevote E (cs_round s) s) as [s1 o1] eqn:Ed. cbn [fst] in Es. subst s1.
+    replace (cs_halted (unlock_known (cs_round s) s)) with false in Eq by (autorewrite with cs; auto).
     unfold modify in Eq. injection Eq as <- <-. rewrite app_nil_r.
-    destruct (do_prevote_out s o1 ltac:(rewrite Ed; reflexivity)) as [-> | (x & -> & Hx)].
-    + cbn. rewrite app_nil_r. split; [|exact I]. eapply core_rel; [exact C | apply rel_set_rs; lia].
+    assert (Rs : Rel (unlock_known (cs_round s) s) (set_rs (cs_round s) SPrevote (unlock_known (cs_round s) s)))
+      by (apply rel_set_rs; autorewrite with cs; lia).
+    destruct (do_prevote_out (cs_round s) s o1 ltac:(rewrite Ed; reflexivity)) as [-> | (x & -> & Hx)].
+    + cbn. rewrite app_nil_r. split; [|exact I]. eapply core_rel; [exact Cu | exact Rs].
     + cbn [pcs flat_map opcs app]. change (PREVOTE =? PRECOMMIT)%N with false. cbn [app]. rewrite app_nil_r.
-      split; [eapply core_rel; [exact C | apply rel_set_rs; lia]|].
+      split; [eapply core_rel; [exact Cu | exact Rs]|].
       cbn [outs_ok]. split; [|exact I]. split; [|intro Hty; discriminate].
-      intros _ r0 b0 Hin Hlt Hne. destruct C as (_ & LI & _).
-      destruct (LI _ _ _ Hin eq_refl) as [(lb & L1 & L2 & L3)|Rl]; [|exact Rl].
-      exfalso. apply Hne. rewrite (Hx lb L1), L2. reflexivity.
+      intros _ r0 b0 Hin Hlt Hne. destruct Cu as (_ & LI & _).
+      destruct (LI _ _ _ Hin ltac:(autorewrite with cs; reflexivity)) as [(lb & L1 & L2 & L3)|Rl].
+      * exfalso. apply Hne. rewrite (Hx lb L1), L2. reflexivity.
+      * autorewrite with cs in Rl. exact Rl.
 Qed.
 
 
@@ -392,14 +448,6 @@ Qed.
 
 
 (* ---------------------------------------------------------------- enterPrecommit *)
-
-Lemma polka_from_state D s r x :
-  HInv D s -> o_maj23 (prevotes (cs_votes s) r) = Some x -> Polka D (cs_height s) r x.
-Proof.
-  intros [H1 H2] Hm. unfold prevotes in Hm. destruct (hv_get (cs_votes s) r PREVOTE) as [vs|] eqn:G; [|discriminate].
-  cbn in Hm. pose proof (hv_get_good D (e_vals E) (cs_votes s) r PREVOTE vs H1 G) as Gs. cbn in Gs.
-  rewrite <- H2. eapply good_set_quorum; eassumption.
-Qed.
 
 Lemma pc_quorum_from_state D s r x :
   HInv D s -> o_maj23 (precommits (cs_votes s) r) = Some x -> Quorum D (e_vals E) PRECOMMIT (cs_height s) r x.
